@@ -252,11 +252,22 @@ def run(ctx):
                        "all list trees up to the bound x every assignment of length bytes to every node, every catalogue data item x every "
                        "allowed format code x lengths {0,1,2|count}; non-trivial = more than one encoding of the value was decoded "
                        "(i.e. at least one non-canonical) or a data-item/format pair")
+    # thread-pair independence first (LINE events are switched off again before the enumeration)
+    from checks import pair_ops  # noqa: PLC0415
+    from mc import pairs  # noqa: PLC0415
+
+    ops = [["dec", d, "typed"] for d in pair_ops.LEAVES[:4]] + [["dec", pair_ops.LEAVES[4], "ANYVALUE"]] + [["dec", d, "ANYVALUE"] for d in pair_ops.TREES]
+    pair_execs = pairs.run_part(ctx, ops, "C02", 2 if ctx.thorough else 1)
     ctx.run_cases(check_case, cases(ctx), "c02", chunk=32)
     ctx.setcov("data_item_classes", len(data_item_classes()))
 
 
 def replay(ctx, detail):
+    if isinstance(detail.get("case"), dict) and detail["case"].get("part") == "pair":
+        from mc import pairs  # noqa: PLC0415
+
+        pairs.replay_pair(ctx, detail["case"], "C02")
+        return
     res = check_case(detail["case"])
     ctx.evaluations += 1
     for sig, d in res.get("v", ()):
